@@ -136,10 +136,14 @@ func (p *parser) parseIPv4Number(u *Url, input string) (number int64, validation
 		validationError = true
 		return
 	}
-	if input[0] == '+' || input[0] == '-' {
-		// strconv.ParseInt accepts a sign; an IPv4 number consists of digits only
-		err = strconv.ErrSyntax
-		return
+	// an IPv4 number consists of digits of its radix only; validate before strconv.ParseInt, which accepts a
+	// sign and reports an overflow (treated as "is a number") before it reaches a later invalid character
+	for _, c := range []byte(input) {
+		digit := (R == 16 && ASCIIHexDigit.Test(uint(c))) || (R == 10 && ASCIIDigit.Test(uint(c))) || (R == 8 && c >= '0' && c <= '7')
+		if !digit {
+			err = strconv.ErrSyntax
+			return
+		}
 	}
 	number, err = strconv.ParseInt(input, R, 64)
 	return
